@@ -316,6 +316,9 @@ func MandatoryLen(t *Type, b []byte) int {
 // canonical comparison
 
 // canonTLV: optional parameters compare as a set keyed by tag (last one wins, as a map would).
+// CanonTLV renders optional parameters as a set keyed by tag (last one wins, as a map would).
+func CanonTLV(l []TLV) string { return canonTLV(l) }
+
 func canonTLV(l []TLV) string {
 	m := map[uint16]TLV{}
 	for _, t := range l {
